@@ -20,7 +20,7 @@ open RV.Arith IntOrPct RV.Webhook RV.CtlPDeploy RV.Oracle.CtlPDeploy
 theorem initialize_exposes_nothing (c : Cfg) (d : Option Dep) (s : Step) (o : StepOut)
     (hcall : s.call = .initialize) (h : step c d s = .val o) :
     initExposesNothing d o = true := by
-  have hc : s.call ≠ .admit := by rw [hcall]; decide
+  have hc : s.call ≠ .submit := by rw [hcall]; decide
   unfold initExposesNothing
   rcases ctrl_step_cases c d s o hc h with ⟨_, hr, _⟩ | ⟨_, _, _, _, hr⟩ | ⟨d0, r, hd, hrep, _, hrest⟩
   · simp [hr]
@@ -48,7 +48,7 @@ theorem initialize_exposes_nothing (c : Cfg) (d : Option Dep) (s : Step) (o : St
 theorem upgradeBatch_within_step (c : Cfg) (d : Option Dep) (s : Step) (o : StepOut)
     (hcall : s.call = .upgradeBatch) (h : step c d s = .val o) :
     upgradeWithinStep c.rel s.batch d o = true := by
-  have hc : s.call ≠ .admit := by rw [hcall]; decide
+  have hc : s.call ≠ .submit := by rw [hcall]; decide
   unfold upgradeWithinStep
   rcases ctrl_step_cases c d s o hc h with ⟨_, _, hdep, _⟩ | ⟨_, hd, hdep, _⟩ | ⟨d0, r, hd, hrep, _, hrest⟩
   · cases d with
@@ -100,7 +100,7 @@ theorem upgradeBatch_within_step (c : Cfg) (d : Option Dep) (s : Step) (o : Step
 theorem upgradeBatch_monotone (c : Cfg) (d : Option Dep) (s : Step) (o : StepOut)
     (hcall : s.call = .upgradeBatch) (h : step c d s = .val o) :
     upgradeMonotone d o = true := by
-  have hc : s.call ≠ .admit := by rw [hcall]; decide
+  have hc : s.call ≠ .submit := by rw [hcall]; decide
   unfold upgradeMonotone
   rcases ctrl_step_cases c d s o hc h with ⟨_, _, hdep, _⟩ | ⟨_, hd, hdep, _⟩ | ⟨d0, r, hd, hrep, _, hrest⟩
   · cases d <;> simp [hdep]
@@ -128,7 +128,7 @@ theorem upgradeBatch_monotone (c : Cfg) (d : Option Dep) (s : Step) (o : StepOut
 theorem upgradeBatch_suffices (c : Cfg) (d : Option Dep) (s : Step) (o : StepOut)
     (hcall : s.call = .upgradeBatch) (h : step c d s = .val o) :
     upgradeSuffices c.rel s.batch d o = true := by
-  have hc : s.call ≠ .admit := by rw [hcall]; decide
+  have hc : s.call ≠ .submit := by rw [hcall]; decide
   unfold upgradeSuffices
   split
   · rename_i hok
@@ -173,7 +173,7 @@ theorem upgradeBatch_suffices (c : Cfg) (d : Option Dep) (s : Step) (o : StepOut
 theorem fault_safe (c : Cfg) (d : Option Dep) (s : Step) (o : StepOut) (h : step c d s = .val o) :
     faultSafe s d o = true := by
   unfold faultSafe
-  by_cases hc : s.call = .admit
+  by_cases hc : s.call = .submit
   · simp [hc]
   · simp only [hc, if_false]
     rcases ctrl_step_cases c d s o hc h with ⟨hf, hr, hdep, hw⟩ | ⟨hf, hd, hdep, hw, _⟩ | ⟨d0, r, hd, _, hf, hrest⟩
@@ -195,7 +195,7 @@ theorem ok_has_effect (c : Cfg) (d : Option Dep) (s : Step) (o : StepOut) (h : s
   split
   · rename_i hok
     cases hcall : s.call
-    · have hc : s.call ≠ .admit := by rw [hcall]; decide
+    · have hc : s.call ≠ .submit := by rw [hcall]; decide
       rcases ctrl_step_cases c d s o hc h with ⟨_, hr, _⟩ | ⟨_, _, _, _, hr⟩ | ⟨d0, r, hd, _, _, hrest⟩
       · rw [hr] at hok; cases hok
       · have := hr.mp hok; rw [hcall] at this; cases this
@@ -209,7 +209,7 @@ theorem ok_has_effect (c : Cfg) (d : Option Dep) (s : Step) (o : StepOut) (h : s
           subst hd'
           simp [hdep, isUnderRolloutControl]
     · cases d <;> cases o.dep <;> rfl
-    · have hc : s.call ≠ .admit := by rw [hcall]; decide
+    · have hc : s.call ≠ .submit := by rw [hcall]; decide
       rcases ctrl_step_cases c d s o hc h with ⟨_, hr, _⟩ | ⟨_, hd, hdep, _⟩ | ⟨d0, r, hd, _, _, hrest⟩
       · rw [hr] at hok; cases hok
       · subst hd; simp [hdep]
@@ -233,20 +233,20 @@ theorem ok_has_effect (c : Cfg) (d : Option Dep) (s : Step) (o : StepOut) (h : s
 theorem step_frame (c : Cfg) (d : Option Dep) (s : Step) (o : StepOut) (h : step c d s = .val o) :
     frame s d o = true := by
   unfold frame
-  by_cases hc : s.call = .admit
+  by_cases hc : s.call = .submit
   · simp only [hc, if_true]
     simp only [step, hc] at h
     cases d with
     | none => simp only [Out.val.injEq] at h; subst h; rfl
     | some d0 =>
       simp only at h
-      cases ha : admit c.world d0 s.edit with
+      cases ha : submit c.world d0 s.edit with
       | panic => rw [ha] at h; cases h
       | val d' =>
         rw [ha] at h
         simp only [Out.val.injEq] at h; subst h
         simp only
-        unfold admit at ha
+        unfold submit at ha
         simp only at ha
         split at ha
         · cases ha
@@ -297,7 +297,7 @@ theorem idempotent_calls (c : Cfg) (d : Option Dep) (a b : Step) (oa ob : StepOu
     obtain ⟨hsame, hok⟩ := hcond
     simp only [sameCall, Bool.and_eq_true, beq_iff_eq, bne_iff_ne, ne_eq, Bool.or_eq_true] at hsame
     obtain ⟨⟨⟨⟨⟨hcall, hca⟩, hfa⟩, hfb⟩, hbatch⟩, hbp⟩ := hsame
-    have hcb : b.call ≠ .admit := by rw [← hcall]; exact hca
+    have hcb : b.call ≠ .submit := by rw [← hcall]; exact hca
     have hfbg : b.fault ≠ .get := by rw [hfb]; decide
     have hfag : a.fault ≠ .get := by rw [hfa]; decide
     -- it suffices that the second call has nothing to write on the first call's result
@@ -421,7 +421,7 @@ theorem initialize_then_within_steps (c : Cfg) (r : Int) (d df : Dep) (s0 : Step
     rw [hd1] at h1 hrun
     simp only [hnc, Bool.false_eq_true, if_false, Bool.and_eq_true, beq_iff_eq] at h1
     obtain ⟨⟨⟨_, _⟩, hl⟩, _⟩ := h1
-    have hc : s0.call ≠ .admit := by rw [hcall]; decide
+    have hc : s0.call ≠ .submit := by rw [hcall]; decide
     have hfr := step_frame c (some d) s0 o0 h0
     simp only [frame, hc, if_false, hd1, Bool.and_eq_true, beq_iff_eq] at hfr
     obtain ⟨⟨⟨⟨_, hr1⟩, _⟩, _⟩, _⟩ := hfr
@@ -432,18 +432,18 @@ theorem initialize_then_within_steps (c : Cfg) (r : Int) (d df : Dep) (s0 : Step
 
 /-! ## C05 — the user's strategy survives the round trip -/
 
-theorem stepRU_of_ctrl (u : RU) (s : Step) (hc : s.call ≠ .admit) : stepRU u s = u := by
+theorem stepRU_of_ctrl (u : RU) (s : Step) (hc : s.call ≠ .submit) : stepRU u s = u := by
   simp [stepRU, hc]
 
 /-- one step keeps the invariant -/
 theorem step_inv (c : Cfg) (d : Dep) (u : RU) (s : Step) (o : StepOut)
-    (hu : ruValid u = true) (hi : Inv d u) (hs : (s.call != .admit || editOK s.edit) = true)
+    (hu : ruValid u = true) (hi : Inv d u) (hs : (s.call != .submit || editOK s.edit) = true)
     (h : step c (some d) s = .val o) :
     ∃ d', o.dep = some d' ∧ Inv d' (stepRU u s) ∧ ruValid (stepRU u s) = true := by
-  by_cases hc : s.call = .admit
+  by_cases hc : s.call = .submit
   · have he : editOK s.edit = true := by simpa [hc] using hs
     simp only [step, hc] at h
-    cases ha : admit c.world d s.edit with
+    cases ha : submit c.world d s.edit with
     | panic => rw [ha] at h; cases h
     | val d' =>
       rw [ha] at h
@@ -522,7 +522,7 @@ theorem finalize_restores_user_strategy (c : Cfg) (d0 dl : Dep) (u : RU) (pre : 
   obtain ⟨hi, hul⟩ := walk_inv c pre d0 dl u hu (userState_inv d0 u h0) hpre hrun
   simp only [endsWithFinalize, Bool.and_eq_true, beq_iff_eq] at hend
   obtain ⟨⟨⟨hcall, hbp⟩, hf⟩, hres⟩ := hend
-  have hc : last.call ≠ .admit := by rw [hcall]; decide
+  have hc : last.call ≠ .submit := by rw [hcall]; decide
   rcases ctrl_step_cases c (some dl) last o hc hlast with ⟨hg, _⟩ | ⟨_, hd, _⟩ | ⟨d1, r1, hd, _, _, hrest⟩
   · rw [hf] at hg; cases hg
   · cases hd
@@ -546,7 +546,7 @@ theorem finalize_nothing_to_restore (c : Cfg) (d0 dl : Dep) (u : RU) (pre : List
   obtain ⟨hi, _⟩ := walk_inv c pre d0 dl u hu (userState_inv d0 u h0) hpre hrun
   simp only [endsWithFinalize, Bool.and_eq_true, beq_iff_eq] at hend
   obtain ⟨⟨⟨hcall, _⟩, hf⟩, _⟩ := hend
-  have hc : last.call ≠ .admit := by rw [hcall]; decide
+  have hc : last.call ≠ .submit := by rw [hcall]; decide
   have hr : restored dl (trackRU u pre) = true := by
     obtain ⟨c1, c2, c3, c4⟩ := hi.clean hpa
     rcases hi.shape with ⟨h1, h2, h3⟩ | ⟨s, _, _, h3, _⟩ | ⟨s, _, _, _, h4, _⟩
@@ -602,5 +602,99 @@ theorem round_trip_partial (c : Cfg) (d0 dl : Dep) (pre : List Step) (last : Ste
       exact absurd hst hne
     · rfl
   · rfl
+
+/-! ## Known findings: where the full-strength C05 statement is false on the unchanged code -/
+
+def exU : RU := { maxUnavailable := some (int 1), maxSurge := some (pct 30) }
+def exU2 : RU := { maxUnavailable := some (pct 10), maxSurge := some (int 2) }
+
+/-- a Deployment as a user configures it -/
+def exD : Dep :=
+  { replicas := some 10, paused := false, stratType := "RollingUpdate", stratRU := some exU, stratAnno := .absent,
+    control := .none, ctrlLabel := false, stableRev := "", extraStatus := false, inProgress := false, tmpl := 1, rest := 0 }
+
+def exCfg : Cfg :=
+  { rel := { batches := [pct 20, pct 50, pct 100], rollbackAnno := false, updated := 0 },
+    world := { matched := true, rsTmpl := some 1 } }
+
+def mk (c : Call) (b : Int := 0) (bp : Bool := false) (e : Edit := Edit.none) : Step :=
+  { call := c, fault := .none, batch := b, bpNil := bp, edit := e }
+
+/-- the Deployment after `Initialize` and a `Finalize` that released only the control-info -/
+def exParked : Dep :=
+  { exD with paused := true, stratType := "Recreate", ctrlLabel := true,
+             stratAnno := .valid { rollingStyle := "Partition", ru := some exU, paused := false, partition := int 0 } }
+
+/-- **finding `unclaimedFinalize` (C05 full strength is FALSE)** — `Initialize`, then a `Finalize` with
+    `batchPartition ≠ nil` (the BatchRelease of a superseded release is deleted: only the control-info is dropped),
+    then a complete `Finalize(batchPartition = nil)` by a BatchRelease that never initialised: the call returns ok,
+    writes nothing, and the Deployment stays paused, `Recreate`, with the strategy annotation and the control label. -/
+theorem finalize_restores_user_strategy_full_FALSE_unclaimed :
+    runD exCfg (some exD) [mk .initialize, mk .finalize 1 false] = some (some exParked) ∧
+    step exCfg (some exParked) (mk .finalize 1 true) = .val { res := .ok, dep := some exParked, writes := 0, obs := none } ∧
+    guardUnclaimed (some exParked) = true ∧
+    roundTripFull exD [mk .initialize, mk .finalize 1 false] (mk .finalize 1 true) (some exParked)
+      { res := .ok, dep := some exParked, writes := 0, obs := none } = false := by
+  decide +kernel
+
+/-- a user's Deployment with `strategy.type: Recreate` -/
+def exRecreate : Dep := { exD with stratType := "Recreate", stratRU := none }
+
+def exRecreateEnd : Dep :=
+  { exRecreate with stratType := "RollingUpdate", stratRU := some { maxUnavailable := some (pct 25), maxSurge := none } }
+
+def exRecreateClaimed : Dep :=
+  { exRecreate with
+      paused := true, ctrlLabel := true, control := Owner.this,
+      stratAnno := .valid { rollingStyle := "Partition", ru := some { maxUnavailable := some (pct 25), maxSurge := none },
+                            paused := false, partition := int 0 } }
+
+/-- **finding `userRecreate` (C05 full strength is FALSE)** — a Deployment whose user chose `strategy.type: Recreate`
+    comes out of `Initialize ; Finalize(batchPartition = nil)` as `RollingUpdate` with `maxUnavailable: 25%`:
+    nothing remembers the original type. -/
+theorem finalize_restores_user_strategy_full_FALSE_recreate :
+    runD exCfg (some exRecreate) [mk .initialize, mk .finalize 0 true] = some (some exRecreateEnd) ∧
+    guardUserRecreate exRecreate = true ∧
+    (∃ dl o, runD exCfg (some exRecreate) [mk .initialize] = some (some dl) ∧
+       step exCfg (some dl) (mk .finalize 0 true) = .val o ∧
+       roundTripFull exRecreate [mk .initialize] (mk .finalize 0 true) (some dl) o = false) := by
+  refine ⟨by decide +kernel, by decide +kernel, ?_⟩
+  refine ⟨exRecreateClaimed, { res := .ok, dep := some exRecreateEnd, writes := 1, obs := none }, ?_⟩
+  decide +kernel
+
+/-! ## non-vacuity (tests on literals, not the ∀ claims) -/
+
+/-- the hypotheses of `finalize_restores_user_strategy` are satisfiable by a real life cycle: new template admitted,
+    claimed, two batches, the user re-applies the manifest with another block, complete finalize -/
+example :
+    ruValid exU = true ∧ userState exD exU = true ∧
+    (let pre := [mk .submit 0 false { Edit.none with tmpl := some 2 }, mk .initialize, mk .upgradeBatch 0,
+                 mk .submit 0 false { Edit.none with strat := some ("RollingUpdate", some exU2) }, mk .upgradeBatch 1];
+     stepsOK pre = true ∧ trackRU exU pre = exU2 ∧
+     (match runD exCfg (some exD) pre with
+      | some (some dl) =>
+        claimed dl && limitOf dl == 5 &&
+        (match step exCfg (some dl) (mk .finalize 1 true) with
+         | .val o => (match o.dep with
+                      | some d' => restored d' exU2
+                      | none => false)
+         | .panic => false)
+      | _ => false) = true) := by
+  decide +kernel
+
+/-- a Deployment that still carries an earlier release's annotation at 50 % (its control-info was dropped) -/
+def exStale : Dep :=
+  { exParked with
+      stratAnno := .valid { rollingStyle := "Partition", ru := some exU, paused := true, partition := pct 50 } }
+
+/-- `initialize_exposes_nothing` is not vacuous: the stale 50 % partition (limit 5) is reset to 0 by one write -/
+example :
+    limitOf exStale = 5 ∧ isUnderRolloutControl exStale = false ∧
+    (match step exCfg (some exStale) (mk .initialize) with
+     | .val o => (match o.dep with
+                  | some d' => limitOf d' == 0 && o.writes == 1
+                  | none => false)
+     | .panic => false) = true := by
+  decide +kernel
 
 end RV.Props.CtlPDeploy
